@@ -36,6 +36,7 @@ Ambient table (a call or a bare reference counts):
   jax.random.{PRNGKey,key}() without argument                          Ambient; with arguments Seeded
         (an argument reading the clock etc. is a hit of the same node by itself)
   iteration over a syntactically visible set with evidently non-numeric elements   Ambient   (class SetRule)
+  parameter default that is a list / dict / set display, a comprehension or a constructor call   Ambient (shared between calls)
 A use of a name whose dotted root is an imported module that is neither rl_blox, nor in this table,
 nor in ALLOWED_LIBS / ALLOWED_OS aborts the translation; so do star imports, eval/exec/__import__,
 unresolvable names, a local that shadows an ambient module or builtin, and getattr/vars/dir on numpy or on
@@ -67,6 +68,7 @@ NP_RNG_CTORS = {"default_rng", "Generator", "RandomState", "SeedSequence", "PCG6
                 "MT19937", "Philox", "SFC64", "BitGenerator"}
 AMBIENT_ROOTS = {"time", "random", "uuid", "secrets", "datetime", "os"}
 AMBIENT_BUILTINS = {"id", "hash", "input"}
+IMMUTABLE_CTORS = {"tuple", "frozenset", "int", "float", "str", "bool", "bytes", "complex", "range", "slice"}
 FORBIDDEN_BUILTINS = {"eval", "exec", "compile", "__import__", "globals", "breakpoint"}
 BUILTIN_NAMES = set(dir(builtins))
 
@@ -398,6 +400,20 @@ class Translator:
                 t.callees.add(node.id)
         # decorators and defaults are evaluated in the enclosing scope; they also matter for each call of fn
         outer = list(fn.decorator_list) + [d for d in fn.args.defaults + fn.args.kw_defaults if d is not None]
+        # a default that is a mutable object is created once and shared by every call that omits the argument: state survives
+        # between calls, so a later run in the same process is not a function of its arguments alone
+        for d in fn.args.defaults + fn.args.kw_defaults:
+            if d is None:
+                continue
+            mutable = isinstance(d, (ast.List, ast.Dict, ast.Set, ast.ListComp, ast.DictComp, ast.SetComp, ast.GeneratorExp)) or (
+                isinstance(d, ast.Call) and not (isinstance(d.func, ast.Name) and d.func.id in IMMUTABLE_CTORS))
+            if mutable:
+                what = "mutable default argument (one object shared by all calls)"
+                where = f"{os.path.relpath(m.path, self.repo)}:{getattr(d, 'lineno', fn.lineno)}"
+                node.hits.append(("Ambient", what, where))
+                e = self.stats["ambient_table_hits"].setdefault(what, {"label": "Ambient", "count": 0, "sites": []})
+                e["count"] += 1
+                e["sites"].append(where)
         self.work.append((scope, targets + [node], outer))
         self.declare_block(fn.body, fscope, f"{qual}.{fn.name}", [node])
         return node
